@@ -740,6 +740,10 @@ func exploreC20(t *testing.T, seed uint64, idx int, tier string, sink *Sink) {
 			sink.Report(w)
 		}
 	}
+	if plan.Meta["arm"] != "direct" && r.Chance(1, 4) {
+		plan.Meta["debuglog"] = "1"
+		sink.Cell("debug-logging-on")
+	}
 	w := execC20(t, plan)
 	sink.Cell("arm:" + plan.Meta["arm"])
 	if plan.Meta["arm"] == "direct" {
